@@ -50,6 +50,9 @@ SCHEMA_POS = {
     "anyof": lambda: {"anyOf": [ref("Tgt"), ref("Side")]},
     "inlineoneof": lambda: {"type": "object", "properties": {"t": {"oneOf": [ref("Tgt"), {"type": "integer"}]}}},
     "nullableprop": lambda: {"type": "object", "properties": {"t": {"anyOf": [ref("Tgt"), {"type": "null"}]}}},
+    "nullable_item": lambda: {"type": "object", "properties": {"t": {"type": ["array", "null"], "items": ref("Tgt")}}},
+    "untyped_item": lambda: {"type": "object", "properties": {"t": {"items": ref("Tgt")}}},
+    "nullable_obj_prop": lambda: {"type": ["object", "null"], "properties": {"t": ref("Tgt")}},
     "nested": lambda: {"type": "object", "properties": {"inner": {"type": "object", "properties": {"t": ref("Tgt")}}}},
     "nesteditem": lambda: {"type": "object", "properties": {"list": {"type": "array", "items": {"type": "object", "properties": {"t": ref("Tgt")}}}}},
     "nestedmap": lambda: {"type": "object", "properties": {"m": {"type": "object", "additionalProperties": {"type": "object", "properties": {"t": ref("Tgt")}}}}},
@@ -70,6 +73,11 @@ def build_spec(pos, kind):
     path = "/holder"
     if pos in SCHEMA_POS:
         schemas["Holder"] = SCHEMA_POS[pos]()
+        holder_op["responses"] = ok200(ref("Holder"))
+    elif pos == "inline_twin":
+        # an inline schema with the same shape as a component that only the OTHER operation uses
+        import copy
+        schemas["Holder"] = {"type": "object", "properties": {"t": copy.deepcopy(schemas["Tgt"])}}
         holder_op["responses"] = ok200(ref("Holder"))
     elif pos == "discmap":
         schemas["Holder"] = {"type": "object", "required": ["kind"], "properties": {"kind": {"type": "string"}},
@@ -112,7 +120,7 @@ def build_spec(pos, kind):
         holder_op["responses"] = {"200": {"$ref": "#/components/responses/Resp"}}
     else:
         raise ValueError(pos)
-    paths = {path: item, "/other": {"get": {"operationId": "other_op", "responses": ok200(ref("Other"))}}}
+    paths = {path: item, "/other": {"get": {"operationId": "other_op", "responses": ok200(ref("Tgt") if pos == "inline_twin" else ref("Other"))}}}
     return {"openapi": "3.1.0", "info": {"title": "t", "version": "1"}, "paths": paths, "components": comps}
 
 
@@ -221,7 +229,7 @@ def main(tier, seed, replay=None):
     res.oblige("extracted model (collect, seeds, reach) builds", exe is not None)
     rng = random.Random(seed * 733 + 7)
     cases = []
-    for pos in list(SCHEMA_POS) + ["discmap"] + OP_POS:
+    for pos in list(SCHEMA_POS) + ["discmap", "inline_twin"] + OP_POS:
         for kind in KINDS:
             if not applicable(pos, kind):
                 continue
@@ -297,6 +305,21 @@ def main(tier, seed, replay=None):
             n_min += 1
             schema_types = dset & set(names)
             extra = sorted(schema_types - R)
+            if extra and c["ids"]:
+                # a type that carries a component's name may be an inline type that took the name of an equal-shaped
+                # component: it is "used" if the selected operations' own types reach it in the emitted mention graph
+                roots = [x for x in dset if any(x.startswith(pascal(i)) for i in c["ids"])]
+                adj = {}
+                for (a, b) in mentions:
+                    adj.setdefault(a, set()).add(b)
+                seen, todo = set(roots), list(roots)
+                while todo:
+                    u = todo.pop()
+                    for v in adj.get(u, ()):
+                        if v not in seen:
+                            seen.add(v)
+                            todo.append(v)
+                extra = [x for x in extra if x not in seen]
             if extra:
                 viol.append((c, f"{c['name']}: emitted schema type(s) not used by any selected operation (model's expanded set): {extra}", None))
             for x in sorted(R - dset):
@@ -321,7 +344,7 @@ def main(tier, seed, replay=None):
                        "traces_validated_against_impl": n_closed, "exhaustive": True, "emitted_type_items": n_emitted,
                        "generator_failures_on_grammar_specs": gen_fail, "reachable_in_model_but_no_item": reach_not_emitted,
                        "rustc_checked_modules": len(pick),
-                       "rule": "exhaustive matrix {reference position: 14 schema-level positions, discriminator mapping, 13 operation-level positions} x {12 kinds of referenced schema} x {default, --all-schemas, --only, --exclude} (inapplicable pairs skipped), plus feature-grammar specs; client-mod output read back with syn: every type name mentioned by a struct field / enum variant / alias is defined exactly once in types.rs or is external; with default scoping every emitted component-schema type lies in the extracted model's expanded set; rustc name resolution (E0412/E0425/E0428/E0432/E0433) on whole modules (sample in quick, all in thorough)"})
+                       "rule": "exhaustive matrix {reference position: 17 schema-level positions (incl. nullable / untyped array items), discriminator mapping, an inline twin of a component only another operation uses, 13 operation-level positions} x {12 kinds of referenced schema} x {default, --all-schemas, --only, --exclude} (inapplicable pairs skipped), plus feature-grammar specs; client-mod output read back with syn: every type name mentioned by a struct field / enum variant / alias is defined exactly once in types.rs or is external; with default scoping every emitted component-schema type lies in the extracted model's expanded set; rustc name resolution (E0412/E0425/E0428/E0432/E0433) on whole modules (sample in quick, all in thorough)"})
     for c in cases[:4]:
         res.sample({"case": c["name"], "flags": c["flags"]})
     res.cov["trusted_base"] = vlib.COMMON_TRUSTED + [
@@ -348,6 +371,10 @@ def main(tier, seed, replay=None):
         res.violation("proof obligation no longer checks: " + "; ".join(o[0] for o in broken),
                       {"broken": [[o[0], o[2]] for o in broken]}, no_input=True)
     return res.finish()
+
+
+def pascal(op_id):
+    return "".join(w[:1].upper() + w[1:] for w in re.split(r"[_\-\s]+", op_id) if w)
 
 
 def classify_closure(c, undefined):
